@@ -70,6 +70,54 @@ def avg_spec_real(atoms_levels, n, minimize):
     return tot, tiny
 
 
+def exact_levels_at_n1(rep, rng, tier, ED):
+    """Exact ties that floating point CAN resolve.  With n = 1 the best-of-n quantile level is q itself (x ** 1.0 is x in IEEE arithmetic:
+    there is nothing to round), so quantile_tuning_curve(1, q) is ppf(q); at q = cdf(y), y an atom of positive weight, the q-quantile of one
+    draw is y (C03: ppf(cdf(y)) = y).  q is the library's own float level for y; the case is judged only when that float does not exceed
+    the exact rational level (then the exact generalised inverse at q is y whatever the rounding of the cumulative weights), so the oracle
+    is exact arithmetic on the sample.  minimize=True: 1 - (1 - q) ** 1.0 is q exactly when q is dyadic (sample sizes 2, 4, ..., 64)."""
+    n_samples = 40 if tier == "quick" else 400
+    for si in range(n_samples):
+        dyadic = si % 2 == 0
+        N = rng.choice([2, 4, 8, 16, 32, 64]) if dyadic else rng.choice([3, 5, 6, 7, 9, 10, 12, 13, 20, 25, 37])
+        ys = sorted({round(rng.uniform(-50, 50), rng.choice([0, 1, 3])) for _ in range(N * 3)})[:N]
+        if len(ys) < N:
+            continue
+        rng.shuffle(ys)
+        a, b = (-INF, INF) if rng.random() < 0.6 else (min(ys) - rng.choice([0.0, 1.5]), max(ys) + rng.choice([0.0, 2.0]))
+        with warnings.catch_warnings():
+            warnings.simplefilter("ignore")
+            d = ED(np.array(ys, dtype=float), a=a, b=b)
+        srt = sorted(ys)
+        for k, y in enumerate(srt, start=1):
+            q = float(d.cdf(y))
+            if Fr(q) > Fr(k, N) or (k > 1 and Fr(q) <= Fr(k - 1, N)):
+                rep.skip("n=1_exact_level:library_level_rounded_above_the_exact_level")
+                continue
+            for mn in ((False, True) if dyadic else (False,)):
+                # minimize=True at n = 1 is the same quantile of the same single draw
+                for form, n1 in (("int", 1), ("float", 1.0), ("array", np.array([1.0])), ("list", [1, 1])):
+                    if form != "int" and rng.random() < 0.6:
+                        continue
+                    rep.count(f"n=1_exact_level:{'dyadic' if dyadic else 'general'}:minimize={mn}:n_as_{form}")
+                    inp = dict(ys=[C.fhex(v) for v in ys], ys_values=ys, a=a, b=b, n=form, q=C.fhex(q), q_value=q, minimize=mn,
+                               atom=y, rank=k, N=N)
+                    try:
+                        with warnings.catch_warnings():
+                            warnings.simplefilter("ignore")
+                            out = d.quantile_tuning_curve(n1, q=q, minimize=mn)
+                    except Exception as e:  # noqa: BLE001
+                        rep.violate(what="quantile_tuning_curve raised on a valid input", error=repr(e), input=inp)
+                        continue
+                    rep.case(("qtc-n1-level", si, k, mn, form))
+                    vals = np.atleast_1d(np.asarray(out, dtype=float))
+                    if not all(float(v) == float(y) for v in vals):
+                        rep.violate(what="quantile_tuning_curve(1, q) at q = cdf(y), y an atom of positive weight, is not y: with n = 1 the best-of-n "
+                                         "quantile level is q itself (q ** 1.0 = q, nothing to round) and the q-quantile of one draw is y",
+                                    input=inp, expected=y, observed=[float(v) for v in vals],
+                                    call=f"EmpiricalDistribution(ys, a={a}, b={b}).quantile_tuning_curve({n1!r}, q=cdf({y}), minimize={mn})")
+
+
 def run(seed, tier, replay=None):
     from opda.nonparametric import EmpiricalDistribution as ED
     rep = C.Report("C04", seed, tier)
@@ -382,6 +430,8 @@ def run(seed, tier, replay=None):
                                 expected=str(bad[1])[:80], observed=float(bad[2]) if float(bad[2]) == float(bad[2]) else "nan",
                                 call=f"EmpiricalDistribution.{call}")
                     break
+    if replay is None:
+        exact_levels_at_n1(rep, C.rng_for("C04-n1-levels", seed), tier, ED)
     return rep.result(
         rule="structured samples (sizes 1-40 with ties/infinite values/weights, plus unweighted samples of >1000 points); n: 1,2,3,N-1,N,"
              "N+1,2N+3,64 and random integers (exact rational model), real n in [0.1,1000] (exact levels from the model, 50-digit "
@@ -390,7 +440,9 @@ def run(seed, tier, replay=None):
              "in place (sort/reverse/negate/rescale/refill/overwrite one entry; permute/zero/renormalise weights) straight after construction and "
              "again before every call -- judged by the exact model of the sample given at construction; quantile_tuning_curve and real-n "
              "average_tuning_curve also receive ONE ns object per case in every call (float64 ndarray; list / tuple / integer ndarray), which "
-             "must be bit-identical after each call, each call's values judged by the exact model at the caller's numbers.",
+             "must be bit-identical after each call, each call's values judged by the exact model at the caller's numbers."
+             " Exact levels at n = 1: q = cdf(y) at every atom of unweighted samples (dyadic sizes: both directions), n given as 1, 1.0, [1.0], "
+             "[1, 1]: the curve must return y (the level q ** 1.0 needs no rounding).",
         extra=dict(driver_lines=drv.lines))
 
 
